@@ -26,8 +26,9 @@ ASSUMPTIONS = [
 
 @st.composite
 def case(draw):
-    spec = draw(blocks.system(n_sim=(1, 6), q_hi=60, lags=(0, 3), exos=(0, 2), consts=(0, 2), aliases=(1, 4),
-                              leaves=(0, 3), horizon=(1, 4), ic_prob=25, nonlinear=False,
+    from harness import gen
+    spec = draw(blocks.system(n_sim=gen.size((1, 6), (1, 10)), q_hi=60, lags=(0, 3), exos=(0, 2), consts=(0, 2), aliases=gen.size((1, 4), (1, 5)),
+                              leaves=gen.size((0, 3), (0, 5)), horizon=gen.size((1, 4), (1, 8)), ic_prob=25, nonlinear=False,
                               tols=('1e-6', '1e-8', '1e-9'), user_t=(False, False, True)))
     return spec
 
